@@ -43,6 +43,7 @@ func init() {
 			{ID: "C07.R21", Text: "every persisted-sequence report reaches the observer it is for: no layer between the mitigation and the dispatcher that is not a proven pass-through (same rule as C20.R20)", Run: noNewLayers},
 			{ID: "C07.R22", Text: "the only wait in front of an event is the persistence wait: the gate receives from no channel and takes no lock (same rule as C20.R23)", Run: gateWaitsOnlyForPersistence},
 			{ID: "C07.R23", Text: "the persisted sequence number the threshold is computed from is the one the node reported: the observe callback hands on the result fields untouched, its error deciding (same rule as C20.R3)", Run: c20r3},
+			{ID: "C07.R25", Text: "a closed generation reports nothing into the observers of the next one: Close stops the mitigation itself, synchronously — not in a goroutine that may still run after the next Open (same rule as C13.R2)", Run: c13r2},
 			{ID: "C07.R6", Text: "close releases without delivering: observer.Close sets closed; listener called ⇔ ¬closed", Run: c07r6},
 		},
 	})
